@@ -764,6 +764,7 @@ fn stress_mode(args: &[String]) {
         let mut logs: Vec<Arc<Mutex<Vec<(u64, Value)>>>> = Vec::new();
         let (dtx, drx) = std::sync::mpsc::channel::<usize>();
         let cc = Arc::new(seg.cc.clone());
+        let mut handles = Vec::new();
         for (i, plan) in plans.into_iter().enumerate() {
             let t = i + 1;
             let (fs2, seq2, b2, c2) = (fs.clone(), seq.clone(), barrier.clone(), cc.clone());
@@ -771,7 +772,7 @@ fn stress_mode(args: &[String]) {
             let log = Arc::new(Mutex::new(Vec::new()));
             logs.push(log.clone());
             let dtx2 = dtx.clone();
-            std::thread::Builder::new().stack_size(256 * 1024).spawn(move || {
+            handles.push(std::thread::Builder::new().stack_size(256 * 1024).spawn(move || {
                 if perturb {
                     PERTURB.with(|p| *p.borrow_mut() = Some(Rng::new(r.next())));
                 }
@@ -785,7 +786,7 @@ fn stress_mode(args: &[String]) {
                     log.lock().unwrap().push((s2, ret_event(t, &op.op, &val, s2)));
                 }
                 let _ = dtx2.send(t);
-            }).expect("spawn");
+            }).expect("spawn"));
         }
         let mut finished = 0;
         let deadline = Instant::now() + HANG;
@@ -811,7 +812,11 @@ fn stress_mode(args: &[String]) {
             println!("{}", json!({"iterations": it + 1, "ops": nops, "events": trace.n, "hangs": 1, "wall_ms": t0.elapsed().as_millis() as u64}));
             std::process::exit(3);
         }
-        // let the client threads exit (their thread-local state holds nothing of the filesystem)
+        // the client threads hold clones of the Arc<PassthroughFs>: join them, so that the descriptors of this
+        // instance are closed before the baseline of the next one is taken
+        for h in handles {
+            let _ = h.join();
+        }
         for (_, e) in all_ev {
             if e["e"] == "Ret" {
                 nops += 1;
